@@ -100,6 +100,7 @@ type Interp struct {
 	crcApps  []crcApp
 	rankApps []rankApp
 	opaque   map[string]*Term
+	varBound map[int32]uint64
 	errorStringT types.Type
 	depth    int
 	nchan    int
@@ -377,14 +378,21 @@ func (in *Interp) indexAddr(fr *frame, instr *ssa.IndexAddr) Value {
 		}
 		return &base[i]
 	}
-	inb := in.ts.Cmp(OULt, idx, in.ts.Const(64, uint64(len(base))))
-	if !in.decideBool(inb) {
-		panic(in.rtPanic(fmt.Sprintf("index out of range [symbolic] with length %d", len(base)), instr.Pos()))
+	if in.ts.MaxU(idx, in.varBound, 0) >= uint64(len(base)) {
+		inb := in.ts.Cmp(OULt, idx, in.ts.Const(64, uint64(len(base))))
+		if !in.decideBool(inb) {
+			panic(in.rtPanic(fmt.Sprintf("index out of range [symbolic] with length %d", len(base)), instr.Pos()))
+		}
 	}
 	// symbolic index: scalars get a symbolic pointer, aggregates are concretised
 	if len(base) > 0 {
-		if _, ok := base[0].(*Term); ok && len(base) <= in.w.cfg.MaxSymIndex {
-			return &SymPtr{base: base, idx: idx}
+		if _, ok := base[0].(*Term); ok {
+			if mx := in.ts.MaxU(idx, in.varBound, 0); mx < uint64(len(base)) {
+				base = base[:mx+1]
+			}
+			if len(base) <= in.w.cfg.MaxSymIndex {
+				return &SymPtr{base: base, idx: idx}
+			}
 		}
 	}
 	c := in.concretize(idx, "index")
@@ -416,12 +424,19 @@ func (in *Interp) loadIdx(base []Value, idx *Term, pos token.Pos) Value {
 		}
 		return base[i]
 	}
-	inb := in.ts.Cmp(OULt, idx, in.ts.Const(64, uint64(len(base))))
-	if !in.decideBool(inb) {
-		panic(in.rtPanic(fmt.Sprintf("index out of range [symbolic] with length %d", len(base)), pos))
+	if in.ts.MaxU(idx, in.varBound, 0) >= uint64(len(base)) {
+		inb := in.ts.Cmp(OULt, idx, in.ts.Const(64, uint64(len(base))))
+		if !in.decideBool(inb) {
+			panic(in.rtPanic(fmt.Sprintf("index out of range [symbolic] with length %d", len(base)), pos))
+		}
 	}
-	if _, ok := base[0].(*Term); ok && len(base) <= in.w.cfg.MaxSymIndex {
-		return in.loadSym(&SymPtr{base, idx})
+	if _, ok := base[0].(*Term); ok {
+		if mx := in.ts.MaxU(idx, in.varBound, 0); mx < uint64(len(base)) {
+			base = base[:mx+1]
+		}
+		if len(base) <= in.w.cfg.MaxSymIndex {
+			return in.loadSym(&SymPtr{base, idx})
+		}
 	}
 	c := in.concretize(idx, "index")
 	return base[c.val]
@@ -458,8 +473,14 @@ func (in *Interp) store(addr Value, v Value, pos token.Pos) {
 		*p = copyVal(v)
 	case *SymPtr:
 		vt := v.(*Term)
+		conds := make(map[*Term]uint64, len(p.base))
+		cs := make([]*Term, len(p.base))
 		for i := range p.base {
-			p.base[i] = in.ts.Ite(in.ts.Cmp(OEq, p.idx, in.ts.Const(64, uint64(i))), vt, p.base[i].(*Term))
+			cs[i] = in.ts.Cmp(OEq, p.idx, in.ts.Const(64, uint64(i)))
+			conds[cs[i]] = uint64(i)
+		}
+		for i := range p.base {
+			p.base[i] = in.ts.Ite(cs[i], in.ts.UnderEq(vt, conds, uint64(i), 0), p.base[i].(*Term))
 		}
 	default:
 		panic(unsupported(fmt.Sprintf("store through %T", addr)))
